@@ -146,6 +146,19 @@ def base_meshes(rng, thorough):
     d.F += [[(2 * i) % 6 for i in range(255)], [(2 * i + 1) % 6 for i in range(255)]]; out.append(d)
     d = Desc("val256_uniform"); b = Builder(d); b.v(3); b.he(0, 1); b.he(1, 2); b.he(2, 0)
     d.F += [[(2 * i) % 6 for i in range(256)], [(2 * i + 1) % 6 for i in range(256)]]; out.append(d)
+    # topology type auto-detection (TopologyType.hh looks at ALL faces, not only at the faces of cells): all-tet / all-hex cells next
+    # to a FREE face (in no cell) of another valence must be detected as polyhedral - otherwise the writer produces a tet / hex file
+    # the reader refuses; with the conforming controls (free triangle with tets, free quad with hexes) and meshes without cells
+    def free_face(b, v, val):
+        loop = [v[0], v[1]] + b.v(val - 2)
+        b.hf(tuple(loop))
+    for val in (2, 3, 4, 5):
+        d = Desc("tet_free%d" % val); b = Builder(d); v = b.v(4); b.tet(*v); free_face(b, v, val); out.append(d)
+    d = Desc("tet2_free4"); b = Builder(d); v = b.v(5); b.tet(v[0], v[1], v[2], v[3]); b.tet(v[0], v[2], v[1], v[4]); free_face(b, v, 4); out.append(d)
+    for val in (2, 3, 4, 5):
+        d = Desc("hex_free%d" % val); b = Builder(d); v = b.v(8); b.hexa(v); free_face(b, v, val); out.append(d)
+    d = Desc("nocells_tris"); b = Builder(d); v = b.v(4); b.hf((v[0], v[1], v[2])); b.hf((v[0], v[2], v[3])); out.append(d)
+    d = Desc("nocells_quads"); b = Builder(d); v = b.v(6); b.hf((v[0], v[1], v[2], v[3])); b.hf((v[0], v[3], v[4], v[5])); out.append(d)
     if thorough:
         for ne in [32767, 32768, 32769]:
             d = Desc("ne%d" % ne); Builder(d).v(3); d.E += [(i % 3, (i + 1) % 3) for i in range(ne)]; d.F += [[0, 2, 4], [2 * ne - 1, 2 * ne - 2, 1]]; out.append(d)
@@ -381,6 +394,41 @@ def reencodings(rng, d):
         k = next(i for i, c in enumerate(rest) if c["type"] in (b"PROP", b"EOF "))
         res.append(("dirp_late", serialize({"hdr": a2["hdr"], "chunks": rest[:k] + dirp + rest[k:]}), None))
     return res
+
+# --------------------------------------------------------------------------------------------- hexahedral halfface orders
+
+def perms(l):
+    if len(l) <= 1: return [list(l)]
+    return [[l[i]] + r for i in range(len(l)) for r in perms(l[:i] + l[i + 1:])]
+
+def hex_order_files(rng, n_variants=24):
+    """(label, bytes, must_reject) of files of hexahedral topology type whose cell lists its halffaces in an order that
+    HexahedralMeshTopologyKernel::add_cell has to re-order (topology check on): every permutation of a cube's six halffaces; the
+    cube with one halfface replaced by its opposite / by another halfface of the cell / by a halfface of another cube (the
+    re-ordering then fails or leaves an invalid slot); two cubes with the second cell permuted"""
+    out = []
+    d = Desc("hexorder", "hex"); b = Builder(d); v = b.v(12); b.hexa(v[0:8]); b.hexa([v[4], v[5], v[6], v[7], v[8], v[9], v[10], v[11]])
+    cube, cube2 = list(d.C[0]), list(d.C[1])
+    one = copy.deepcopy(d); one.C = [cube]
+    def emit(label, desc, cells, rej=None):
+        x = copy.deepcopy(desc); x.C = cells; x.topo = "hex"
+        out.append((label, serialize(file_ast(x)), rej))
+    for pi, p in enumerate(perms(cube)):
+        emit("perm%d" % pi, one, [p])
+    sample = [rng.shuffle(list(cube)) for _ in range(n_variants)]
+    for si, p in enumerate(sample):
+        i = rng.below(6)
+        q = list(p); q[i] ^= 1; emit("flip%d@%d" % (si, i), one, [q])                       # wrong orientation of one side
+        q = list(p); q[i] = p[(i + 1 + rng.below(5)) % 6]; emit("dup%d@%d" % (si, i), one, [q])      # a side twice, one missing
+        q = list(p); q[i] = rng.pick([h for h in cube2 if h not in cube and (h ^ 1) not in cube]); emit("foreign%d@%d" % (si, i), d, [cube, q][1:] + [cube2])
+        emit("second%d" % si, d, [cube, rng.shuffle(list(cube2))])
+    # the witness of the missing re-ordering checks (IO/Ovmb2Hex.v): halfface 0 where halfface 1 belongs
+    w = Desc("hexbad", "hex"); w.nv = 8
+    w.E = [(3, 2), (2, 1), (1, 0), (0, 3), (7, 6), (6, 5), (5, 4), (4, 7), (2, 6), (7, 1), (5, 3), (0, 4)]
+    w.F = [[0, 2, 4, 6], [8, 10, 12, 14], [3, 16, 9, 18], [13, 20, 7, 22], [19, 15, 23, 5], [1, 21, 11, 17]]
+    w.C = [[5, 0, 3, 7, 9, 11]]; w.topo = "hex"
+    out.append(("witness_invalid_slot", serialize(file_ast(w)), True))
+    return out
 
 # --------------------------------------------------------------------------------------------- mutation
 
